@@ -26,3 +26,46 @@ Example clients_nonvacuous :
   _range_excludes_zero (IV 1 9) = Ok true /\ signextend_noop_cond 0 (IV (-128) 127) = Ok true /\
   range_cmp_kernel 200 (IV 0 100) true false true = Ok (Some 1).
 Proof. repeat split; reflexivity. Qed.
+
+From Verif Require Import C14.RangeRefine.
+
+(* branch refinement (variable_range/analysis.py): a word that takes the branch stays in the refined range *)
+Theorem range_refinement_sound :
+  (forall cur lit is_true a R, - HALF <= lit <= W - 1 -> wf cur -> 0 <= a < W -> mem a cur ->
+     (w_lt a (lit mod W) =? 1) = is_true -> refine_compare_left cur lit "lt" is_true = Ok (Some R) -> mem a R /\ wf R) /\
+  (forall cur lit is_true a R, - HALF <= lit <= W - 1 -> wf cur -> 0 <= a < W -> mem a cur ->
+     (w_gt a (lit mod W) =? 1) = is_true -> refine_compare_left cur lit "gt" is_true = Ok (Some R) -> mem a R /\ wf R) /\
+  (forall cur lit is_true a R, - HALF <= lit <= W - 1 -> wf cur -> 0 <= a < W -> mem a cur ->
+     (w_slt a (lit mod W) =? 1) = is_true -> refine_compare_left cur lit "slt" is_true = Ok (Some R) -> mem a R /\ wf R) /\
+  (forall cur lit is_true a R, - HALF <= lit <= W - 1 -> wf cur -> 0 <= a < W -> mem a cur ->
+     (w_sgt a (lit mod W) =? 1) = is_true -> refine_compare_left cur lit "sgt" is_true = Ok (Some R) -> mem a R /\ wf R) /\
+  (forall cur lit is_true a R, - HALF <= lit <= W - 1 -> wf cur -> 0 <= a < W -> mem a cur ->
+     (w_lt (lit mod W) a =? 1) = is_true -> refine_compare_right cur lit "lt" is_true = Ok (Some R) -> mem a R /\ wf R) /\
+  (forall cur lit is_true a R, - HALF <= lit <= W - 1 -> wf cur -> 0 <= a < W -> mem a cur ->
+     (w_gt (lit mod W) a =? 1) = is_true -> refine_compare_right cur lit "gt" is_true = Ok (Some R) -> mem a R /\ wf R) /\
+  (forall cur lit is_true a R, - HALF <= lit <= W - 1 -> wf cur -> 0 <= a < W -> mem a cur ->
+     (w_slt (lit mod W) a =? 1) = is_true -> refine_compare_right cur lit "slt" is_true = Ok (Some R) -> mem a R /\ wf R) /\
+  (forall cur lit is_true a R, - HALF <= lit <= W - 1 -> wf cur -> 0 <= a < W -> mem a cur ->
+     (w_sgt (lit mod W) a =? 1) = is_true -> refine_compare_right cur lit "sgt" is_true = Ok (Some R) -> mem a R /\ wf R) /\
+  (forall cur a R, wf cur -> 0 <= a < W -> mem a cur -> a <> 0 ->
+     refine_iszero_false cur = Ok (Some R) -> mem a R /\ wf R).
+Proof.
+  repeat split.
+  all: first [ exact refine_left_lt_sound | exact refine_left_gt_sound | exact refine_left_slt_sound
+             | exact refine_left_sgt_sound | exact refine_right_lt_sound | exact refine_right_gt_sound
+             | exact refine_right_slt_sound | exact refine_right_sgt_sound | exact refine_iszero_false_sound
+             | idtac ].
+  all: intros; first
+    [ eapply refine_left_lt_sound; eassumption | eapply refine_left_gt_sound; eassumption
+    | eapply refine_left_slt_sound; eassumption | eapply refine_left_sgt_sound; eassumption
+    | eapply refine_right_lt_sound; eassumption | eapply refine_right_gt_sound; eassumption
+    | eapply refine_right_slt_sound; eassumption | eapply refine_right_sgt_sound; eassumption
+    | eapply refine_iszero_false_sound; eassumption ].
+Qed.
+Print Assumptions range_refinement_sound.
+
+Example refinement_nonvacuous :
+  refine_compare_left (IV 0 255) 10 "lt" true = Ok (Some (IV 0 9)) /\
+  refine_compare_left (IV (-128) 127) 5 "slt" false = Ok (Some (IV 5 127)) /\
+  refine_iszero_false (IV 0 7) = Ok (Some (IV 1 7)).
+Proof. repeat split; reflexivity. Qed.
